@@ -457,7 +457,7 @@ def s_stream_req_eom(vc):
     g2 = run_automaton(vc, "order", g, out.trace)
     check_exit(vc, "exit", st, flow, g2, out.trace)
     vc.ensure("request_hook_once", kinds(out.trace).count("HttpRequestHook") == 1)
-    vc.ensure("client_side_done", state_name(vc, st.client_state) == "state_done")
+    vc.ensure("client_side_finished", state_name(vc, st.client_state) in ("state_done", "state_errored"))
 
 
 @scenario("state_wait_for_response_headers", functions=[HS + ".state_wait_for_response_headers", HS + ".check_body_size", HS + ".check_invalid", HS + ".check_killed",
